@@ -24,12 +24,17 @@ def run_units(root, tag):
     shutil.rmtree("/var/tmp/harmless-gen-%s" % tag, ignore_errors=True)
     return out
 
-base = run_units("/repo", "base")
+base = run_units("/repo", "base") if "--no-verus" not in sys.argv else {}
 results = {"baseline_failed": {u: v["failed"] for u, v in base.items() if v["failed"]}, "edits": {}}
 alarms = 0
+only = None
+for a in sys.argv:
+    if a.startswith("--only="):
+        only = a.split("=", 1)[1].split(",")
+outname = "results.json" if not only else "results_%s.json" % ("kani" if with_kani else "rerun")
 for n in sorted(os.listdir(src)):
     pd = os.path.join(src, n, "patch.diff")
-    if not os.path.exists(pd):
+    if not os.path.exists(pd) or (only and n not in only):
         continue
     scratch = "/var/tmp/harmless-%s" % n
     shutil.rmtree(scratch, ignore_errors=True)
@@ -39,7 +44,7 @@ for n in sorted(os.listdir(src)):
     files = re.findall(r"^\+\+\+ b/(\S+)", open(pd).read(), re.M)
     rec = {"title": title, "files": files, "applies": p.returncode == 0, "false_alarms": [], "undecided": [], "kani": {}}
     if p.returncode == 0:
-        res = run_units(scratch, n)
+        res = run_units(scratch, n) if "--no-verus" not in sys.argv else {}
         for u, v in res.items():
             new = [f for f in v["failed"] if f not in base[u]["failed"]]
             if new:
@@ -68,5 +73,5 @@ for n in sorted(os.listdir(src)):
     results["edits"][n] = rec
     print(n, "applies" if rec["applies"] else "DOES NOT APPLY", "| false alarms:", rec["false_alarms"] or "none", "| undecided:", [x["unit"] for x in rec["undecided"]] or "none", "| kani:", {k: v["exit"] for k, v in rec["kani"].items()}, "|", title[:70], flush=True)
 os.makedirs("/verif/seeded/harmless", exist_ok=True)
-json.dump(results, open("/verif/seeded/harmless/results.json", "w"), indent=1)
+json.dump(results, open("/verif/seeded/harmless/" + outname, "w"), indent=1)
 print("total false alarms:", alarms)
